@@ -13,11 +13,37 @@ ARRAY_CARRIERS = ('list', 'listf', 'listnp', 'tuple', 'nested', 'strlist', 'arr.
 ROUTES = ('ctor', 'call', 'setval', 'setitem', 'tmpl', 'tmplkw')
 
 
+LD_MANT = int(np.finfo(np.longdouble).nmant) + 1      # 64 on x86 extended precision, 53 where longdouble is double
+
+
+def to_longdouble(q):
+    """the dyadic rational q as an exact np.longdouble (built from 32-bit pieces: no conversion through a double)."""
+    q = Fraction(q)
+    k, e = q.numerator, -(q.denominator.bit_length() - 1)
+    sgn, k = (-1 if k < 0 else 1), abs(k)
+    x = np.longdouble(0)
+    sh = 0
+    while k:
+        x = x + np.ldexp(np.longdouble(k & 0xFFFFFFFF), sh)
+        k >>= 32
+        sh += 32
+    return np.ldexp(x, e) * sgn
+
+
 def _fits_float_dtype(q, dt):
+    if dt == 'longdouble':
+        q = Fraction(q)
+        d = q.denominator
+        if d & (d - 1):
+            return False
+        k = abs(q.numerator)
+        while k and k % 2 == 0:
+            k //= 2
+        return k.bit_length() <= LD_MANT and (q == 0 or -1000 < abs(q.numerator).bit_length() - d.bit_length() < 1000)
     if not is_exact_float(q):
         return False
     f = to_float(q)
-    if dt in ('float64', 'longdouble'):
+    if dt == 'float64':
         return True
     x = np.dtype(dt).type(f)
     return bool(np.isfinite(x)) and Fraction(float(x)) == q
@@ -122,6 +148,10 @@ def build(carrier, vals):
             src, shape = Fxp(np.array(pv).reshape(2, n // 2), sg, w, fs), (2, n // 2)
         assert [exact(c) for c in flat(src.get_val())] == list(vals) and not src.status['inaccuracy'], 'fxp carrier not exact'
         return src, shape
+    if dt == 'longdouble' and kind in ('np', 'arr'):
+        if kind == 'np':
+            return to_longdouble(vals[0]), ()
+        return np.array([to_longdouble(v) for v in vals], dtype=np.longdouble), (n,)
     if kind == 'np':
         t = np.dtype(dt).type
         return (t(int(vals[0])) if dt in INT_DTYPES else t(to_float(vals[0]))), ()
